@@ -52,6 +52,8 @@ fn main() {
     let t0_opts = nums(&prof, "t0s", &[0, 0, 7, 1999, 34_200_251]);
     let ticks_opts = nums(&prof, "ticks", &[1, 1, 2, 5]);
     let max_batch = f64p("max_batch", 7.0) as usize;
+    let min_batch = f64p("min_batch", 1.0) as usize;       // a step is taken only once the batch has this many instructions
+    let p_empty_step = f64p("p_empty_step", 0.04);          // steps with nothing queued ("quiet" steps)
     let p_step = f64p("p_step", 0.2);
     let p_market = f64p("p_market", 0.15);
     let p_toggle = f64p("p_toggle", 0.02);
@@ -98,7 +100,10 @@ fn main() {
             let r = rng.gen::<f64>();
             let n_orders: Vec<usize> = t.prev_orders.iter().map(|o| o.len()).collect();
             let tot_orders: usize = n_orders.iter().sum();
-            let mut lbl: Value = if last || batch >= max_batch || (batch > 0 && r < p_step) {
+            let mut lbl: Value = if last || batch >= max_batch || (batch >= min_batch && r < p_step) || (batch == 0 && r < p_empty_step) {
+                if batch == 0 { *feats.entry("quiet_steps".into()).or_insert(0) += 1; }
+                if batch > 32 { *feats.entry("steps_with_batch_above_32".into()).or_insert(0) += 1; }
+                if batch >= 1024 { *feats.entry("steps_with_batch_of_1024_or_more".into()).or_insert(0) += 1; }
                 json!({"op": "step"})
             } else if r < p_step + p_toggle {
                 trading_now = !trading_now;
